@@ -3,6 +3,7 @@ package main
 // VC generator core: script assembly, heap model, obligations.
 
 import (
+	"regexp"
 	"os"
 	"fmt"
 	"go/types"
@@ -856,3 +857,8 @@ func topArgs(t string) []string {
 	}
 	return out
 }
+
+var reDeclaredHeap = regexp.MustCompile(`^(h\d+_[A-Za-z0-9_]+|hm_\d+|lhp_\d+)$`)
+
+// declaredHeapName: the heap value is a declared constant (usable inside a quantifier pattern), not a macro.
+func declaredHeapName(t string) bool { return reDeclaredHeap.MatchString(t) }
